@@ -9,7 +9,10 @@ use prometheus::{Counter, CounterVec, Opts, Registry};
 use crate::engine::{Budget, Property, Report, Tier, Verdict};
 use crate::ensure;
 use crate::neutral::{neutral_all, NFamily, NSample, NType, NValue};
+use crate::sched::{run, ExecVerdict, OpFn};
+use crate::schedsrc::make_chooser;
 use crate::src::Src;
+use crate::wgl::{linearize, HOp};
 
 pub struct C06;
 
@@ -232,6 +235,177 @@ struct Model {
     sigs: BTreeMap<String, Sig>,
 }
 
+type Multiset = Vec<(String, Vec<(String, String)>, u64)>;
+
+/// Operations of the concurrent phase (indices into the pool).
+#[derive(Clone, Debug)]
+enum COp {
+    Register(usize),
+    Unregister(usize),
+    Gather,
+}
+
+#[derive(Clone, Debug, PartialEq)]
+enum CRes {
+    Ok(bool),
+    Gathered(Multiset),
+}
+
+/// Sequential reference for the concurrent phase: the admission model of the sequential phase, made hashable.
+#[derive(Clone, PartialEq, Eq, Hash)]
+struct CModel {
+    registered: BTreeMap<BTreeSet<IdKey>, usize>,
+    ids: BTreeSet<IdKey>,
+    sigs: BTreeMap<String, Sig>,
+    pool: std::sync::Arc<Vec<(Vec<DSpec>, Multiset)>>,
+}
+
+impl std::hash::Hash for DSpec {
+    fn hash<H: std::hash::Hasher>(&self, h: &mut H) {
+        self.name.hash(h);
+        self.help.hash(h);
+        self.consts.hash(h);
+        self.vars.hash(h);
+    }
+}
+
+impl crate::wgl::Model for CModel {
+    type Op = COp;
+    type Res = CRes;
+    fn apply(&mut self, op: &COp) -> CRes {
+        match op {
+            COp::Register(i) => {
+                let specs = &self.pool[*i].0;
+                let bad = specs.iter().any(|s| self.ids.contains(&s.id()) || self.sigs.get(&s.name).map_or(false, |g| *g != s.sig()));
+                if bad {
+                    return CRes::Ok(false);
+                }
+                self.registered.insert(specs.iter().map(|s| s.id()).collect(), *i);
+                for s in specs.iter() {
+                    self.ids.insert(s.id());
+                    self.sigs.insert(s.name.clone(), s.sig());
+                }
+                CRes::Ok(true)
+            }
+            COp::Unregister(i) => {
+                let specs = &self.pool[*i].0;
+                let idset: BTreeSet<IdKey> = specs.iter().map(|s| s.id()).collect();
+                if self.registered.remove(&idset).is_none() {
+                    return CRes::Ok(false);
+                }
+                for s in specs.iter() {
+                    self.ids.remove(&s.id());
+                }
+                CRes::Ok(true)
+            }
+            COp::Gather => {
+                let mut want: Multiset = vec![];
+                for (_, ci) in &self.registered {
+                    want.extend(self.pool[*ci].1.iter().cloned());
+                }
+                want.sort();
+                CRes::Gathered(want)
+            }
+        }
+    }
+}
+
+/// Concurrent phase: 2-3 threads register / unregister / gather on a fresh registry under the deterministic
+/// scheduler (the registry's lock is a scheduling point); the observed results together with a quiescent final
+/// gather must be explained by some one-at-a-time order consistent with real time against the admission model.
+fn concurrent_phase(src: &mut Src, rep: &mut Report, pool: &[Coll]) -> Verdict {
+    let usable: Vec<usize> = (0..pool.len()).filter(|i| !pool[*i].self_inconsistent()).collect();
+    if usable.len() < 2 {
+        return Verdict::Pass;
+    }
+    let info: Vec<(Vec<DSpec>, Multiset)> = pool
+        .iter()
+        .enumerate()
+        .map(|(i, c)| {
+            let mut m: Multiset = c
+                .samples((i + 1) as f64)
+                .into_iter()
+                .filter_map(|(name, s)| if let NValue::Counter(v) = s.value { Some((name, s.labels, v.to_bits())) } else { None })
+                .collect();
+            m.sort();
+            (c.specs(), m)
+        })
+        .collect();
+    let nthreads = 2 + src.below(2);
+    let mut prog: Vec<Vec<COp>> = vec![];
+    for _ in 0..nthreads {
+        let n = 1 + src.below(3);
+        let mut ops = vec![];
+        for _ in 0..n {
+            let i = usable[src.below(usable.len())];
+            ops.push(match src.below(10) {
+                0..=5 => COp::Register(i),
+                6..=7 => COp::Unregister(i),
+                _ => COp::Gather,
+            });
+        }
+        prog.push(ops);
+    }
+    let reg = Registry::new();
+    let exec_op = |op: &COp| -> CRes {
+        match op {
+            COp::Register(i) => CRes::Ok(reg.register(pool[*i].boxed()).is_ok()),
+            COp::Unregister(i) => CRes::Ok(reg.unregister(pool[*i].boxed()).is_ok()),
+            COp::Gather => CRes::Gathered(gather_multiset(&neutral_all(&reg.gather()))),
+        }
+    };
+    let total: usize = prog.iter().map(|p| p.len()).sum();
+    let threads: Vec<Vec<OpFn<CRes>>> = prog
+        .iter()
+        .map(|ops| {
+            ops.iter()
+                .map(|op| {
+                    let op = op.clone();
+                    let f = &exec_op;
+                    Box::new(move || f(&op)) as OpFn<CRes>
+                })
+                .collect()
+        })
+        .collect();
+    let mut chooser = make_chooser(src, nthreads, total * 8 + 4, rep);
+    let exec = run(threads, chooser.as_mut(), 6000);
+    drop(chooser);
+    let fail = |sig: &str, detail: String| Verdict::Fail { sig: format!("concurrent:{}", sig), detail };
+    match &exec.verdict {
+        ExecVerdict::Completed => {}
+        ExecVerdict::StepLimit | ExecVerdict::Halted => return Verdict::Pass,
+        ExecVerdict::Panic(m) => return fail("panic", format!("{} ;; program {:?}", m, prog)),
+        ExecVerdict::Stuck { spinners, blocked } => return fail("stuck", format!("no thread can make progress (spinning {:?}, blocked {:?}) ;; program {:?}", spinners, blocked, prog)),
+    }
+    let mut hist: Vec<HOp<COp, CRes>> = exec
+        .ops
+        .iter()
+        .map(|o| HOp { op: prog[o.thread][o.idx].clone(), res: o.result.clone().unwrap(), invoke: o.invoke, response: o.response.unwrap() })
+        .collect();
+    let last = exec.trace.len() + 1;
+    hist.push(HOp { op: COp::Gather, res: exec_op(&COp::Gather), invoke: last, response: last + 1 });
+    let init = CModel { registered: BTreeMap::new(), ids: BTreeSet::new(), sigs: BTreeMap::new(), pool: std::sync::Arc::new(info.clone()) };
+    if linearize(&init, &hist).is_none() {
+        let h: Vec<String> = hist.iter().map(|h| format!("{:?} -> {:?} [{},{}]", h.op, h.res, h.invoke, h.response)).collect();
+        let p: Vec<String> = info.iter().enumerate().map(|(i, c)| format!("#{}={:?}", i, c.0.iter().map(|s| (s.name.clone(), s.help.clone(), s.consts.clone(), s.vars.clone())).collect::<Vec<_>>())).collect();
+        return fail("not-linearizable", format!("no one-at-a-time order explains: {} ;; pool: {}", h.join("; "), p.join(" ")));
+    }
+    rep.class("concurrent-phase");
+    // overlapping registrations that cannot both be admitted
+    for (a, ha) in hist.iter().enumerate() {
+        for hb in hist.iter().skip(a + 1) {
+            if let (COp::Register(i), COp::Register(j)) = (&ha.op, &hb.op) {
+                let ov = ha.invoke < hb.response && hb.invoke < ha.response;
+                let clash = info[*i].0.iter().any(|s| info[*j].0.iter().any(|t| s.id() == t.id() || (s.name == t.name && s.sig() != t.sig())));
+                if ov && clash {
+                    rep.class("concurrent-overlapping-conflicting-registrations");
+                }
+            }
+        }
+    }
+    Verdict::Pass
+}
+
 fn gather_multiset(fams: &[NFamily]) -> Vec<(String, Vec<(String, String)>, u64)> {
     let mut out = vec![];
     for f in fams {
@@ -259,7 +433,9 @@ impl Property for C06 {
          ones (equal / sibling with another constant value / other help); then a history of 4-30 register/unregister/gather calls. \
          Oracles: (1) reference model of admission (identity keys, per-name signatures of everything ever registered), error kind \
          AlreadyReg when equality is the only reason, gather() = samples of exactly the registered collectors; (2) twin Registry \
-         that receives the same history without the refused calls must give identical results and gathers. Non-trivial: a refused \
+         that receives the same history without the refused calls must give identical results and gathers; (3) in 12% of cases a \
+         concurrent phase follows: 2-3 threads x 1-3 register/unregister/gather calls on a fresh registry under the deterministic \
+         scheduler, results + quiescent gather must be linearizable against the same admission model. Non-trivial: a refused \
          registration is followed by a registration/unregistration involving one of the same names. Distinct = decoded choices."
     }
     fn assumptions(&self) -> Vec<&'static str> {
@@ -432,6 +608,11 @@ impl Property for C06 {
             rep.class("with-refused-registration");
         }
         rep.nontrivial = nontrivial;
+        if src.chance(30) {
+            if let v @ Verdict::Fail { .. } = concurrent_phase(src, rep, &pool) {
+                return v;
+            }
+        }
         if rep.want_sample {
             let p: Vec<String> = pool.iter().enumerate().map(|(i, c)| format!("#{}={:?}", i, c.specs().iter().map(|s| (s.name.clone(), s.help.clone(), s.consts.clone(), s.vars.clone())).collect::<Vec<_>>())).collect();
             rep.sample = Some(format!("pool: {} :: history: {}", p.join(" "), log.join(" ")));
